@@ -19,6 +19,12 @@ whose names sort differently on the two sides or are listed / declared in differ
 reaching one class through different identifiers with equal, overlapping or crossed referential names.
 Associations are compared by their set of (referential attribute, identifying attribute) pairs -- the order in which an
 association lists its pairs carries no meaning.
+The item `edited-after-load` persists models that have a *history* (bounded/_c01_hist.py): the model was built through
+the API, loaded from an independently written text, reloaded from a first round trip, or its instances existed before
+their associations were defined; it is then edited through the public interface (relate, unrelate, attribute writes,
+new, delete) and only then written.  The oracle is the description after the edits; the extra clause
+`precondition-model-with-history-matches-description` says that the edited model itself, walked through the public
+interface, is not the described one (nothing else is evaluated for that case).
 In the items `identifier-R-digits` and `phrase-with-quote` every clause is prefixed with the item name: these are the
 known domain edges of DESIGN section 6 (K2) and are kept apart from the rest of the space.
 """
@@ -31,6 +37,7 @@ import tempfile
 from vlib.bounded import item
 
 from bounded import _schema_gen as G
+from bounded import _c01_hist as H
 
 STANDS_IN = ['xtuml.persist.serialize_database', 'xtuml.persist.serialize_schema', 'xtuml.persist.serialize_instances',
              'xtuml.persist.serialize_unique_identifiers', 'xtuml.persist.persist_database', 'xtuml.persist.persist_schema',
@@ -103,7 +110,6 @@ def _file_encodable(desc):
 
 def run_case(desc, route, tmp):
     """Evaluate every clause of the property on one description and route.  [(clause, observed, required)]."""
-    import xtuml
     required = G.expected_view(desc)
     m = G.api_build(desc)
     got = G.observe(m)
@@ -112,6 +118,12 @@ def run_case(desc, route, tmp):
         return [('precondition-api-model-matches-description', [list(x) for x in pre], 'model built through the API equals the description')]
     if route in FILE_ROUTES + ('persist_instances_only',) and not _file_encodable(desc):
         return []
+    return round_trip(m, required, route, tmp)
+
+
+def round_trip(m, required, route, tmp):
+    """Write m through the route, load it, compare with the required view; then the fixed point."""
+    import xtuml
     try:
         m2 = reload_via(route, m, tmp)
     except Exception as e:
@@ -133,6 +145,37 @@ def run_case(desc, route, tmp):
     except Exception as e:
         out.append(('fixed-point', '%s: %s' % (type(e).__name__, str(e)[:300]), 'serialize(reload) loads and reproduces itself'))
     return out
+
+
+PRE_HISTORY = 'precondition-model-with-history-matches-description'
+
+
+def run_history_case(desc0, origin, edits, route, tmp):
+    """The persisted model has a history: it came into being as `origin` says (holding the model desc0), was edited
+    through the public interface, and is then written through the route.  What must load back is the description after
+    the edits."""
+    desc1 = H.apply_ops(desc0, edits)
+    required = G.expected_view(desc1)
+    if route in FILE_ROUTES and not (_file_encodable(desc0) and _file_encodable(desc1)):
+        return []
+    try:
+        if origin == 'api':
+            m = G.api_build(desc0)
+        elif origin == 'loaded':
+            m = H.load_independent_text(desc0)
+        elif origin == 'reloaded':
+            m = reload_via(route, G.api_build(desc0), tmp)
+        elif origin == 'late-association':
+            m = H.late_association_build(desc0)
+        else:
+            raise ValueError(origin)
+        H.api_apply(m, desc0, edits)
+        pre = G.diff_views(required, G.observe(m))
+    except Exception as e:
+        return [(PRE_HISTORY, '%s: %s' % (type(e).__name__, str(e)[:300]), 'the model can be obtained and edited through the public interface')]
+    if pre:
+        return [(PRE_HISTORY, [list(x) for x in pre], 'the edited model, walked through the public interface, equals the description after the edits')]
+    return round_trip(m, required, route, tmp)
 
 
 # --------------------------------------------------------------------------------------------------- generators
@@ -573,6 +616,38 @@ def layout_case_desc(case):
     return several_desc(*case[1:-1])
 
 
+# --------------------------------------------------------------------------------------------------- histories
+
+HIST_TYPES_QUICK = [('INTEGER',), ('STRING', 'UNIQUE_ID'), ('REAL',)]
+HIST_TYPES_ALL = [(t,) for t in G.CORE_TYPES] + [('STRING', 'UNIQUE_ID'), ('INTEGER', 'STRING'), ('UNIQUE_ID', 'BOOLEAN'),
+                                                  ('REAL', 'REAL'), ('BOOLEAN', 'INTEGER')]
+HIST_CARDS = [('MC', '1'), ('1C', '1C'), ('M', '1C'), ('1', '1'), ('MC', 'MC')]
+
+
+def history_cases(quick):
+    """(shape, key types, cards, identifiers, population, phrases, script, association index, origin, route); a
+    script that does not apply to a base model (nothing to relink, no free row, ...) or that leaves the domain is
+    skipped when the case is run."""
+    k = 0
+    for shape in SHAPES:
+        for kt in (HIST_TYPES_QUICK if quick else HIST_TYPES_ALL):
+            for pop in POPS[:2]:
+                k += 1                                   # keeps the rotations below from locking onto the script
+                for name in H.SCRIPTS:
+                    for ai in ((0, 1) if name in H.PER_ASSOC and shape in ('assoc-class', 'chain', 'two-assocs', 'assoc-class-reflexive') else (0,)):
+                        k += 1
+                        cards = HIST_CARDS[k % 3:k % 3 + 1] if quick else [HIST_CARDS[(k + d) % 5] for d in (0, 1, 2)]
+                        for ci, (scard, tcard) in enumerate(cards):
+                            origins = [H.ORIGINS[(k + d) % 4] for d in (0, 1)] if quick else H.ORIGINS
+                            for oi, origin in enumerate(origins):
+                                if quick:
+                                    routes = ((STRING_ROUTES + FILE_ROUTES)[(k // 2 + 3 * oi) % 7],)
+                                else:
+                                    routes = (STRING_ROUTES[(k + ci + oi) % 4], FILE_ROUTES[(k + ci) % 3])
+                                for route in routes:
+                                    yield (shape, list(kt), scard, tcard, (k + ci) % 3, pop, (k // 3) % 5, name, ai, origin, route)
+
+
 # --------------------------------------------------------------------------------------------------- items
 
 def well_formed(desc):
@@ -671,6 +746,52 @@ def key_layouts(ctx):
     _drive(ctx, layout_cases(ctx.quick), layout_case_desc, lambda c: c[-1])
 
 
+@item('edited-after-load', stands_in_for=STANDS_IN + ['xtuml.persist.serialize_instance', 'xtuml.load.ModelLoader.populate_connections',
+                                                       'xtuml.load.ModelLoader.populate_instances'], shards=3, weight=2,
+      bound='the persisted model has a history: origin {built through the API, loaded from an independently written text, '
+            'reloaded from a first round trip through the same route, instances created before their associations '
+            '(define_association + batch_relate + formalize)} x one of 12 edit scripts through the public interface before '
+            'writing (relink a referring row to another referred row, unlink one / all, link a free row, two rows swap '
+            'their referred rows, write plain attributes, change the key of a referred row that is referred to, new referred '
+            'row taking over a referring row, new referring row, delete a referring / a referred row after unrelating it, '
+            'a mix of them; per association of the shape) x the 6 shapes of `relationships` x key typings (quick 3, '
+            'thorough 10) x population {all, partial}; cardinality pairs (quick 1 of 3 rotating, thorough 3 of 5 rotating), identifiers '
+            'and phrases rotating; quick: 2 rotating origins and 1 rotating route per case, thorough: 4 origins and 2 routes; '
+            '<=11 edits; the model after the edits stays in the domain (referred keys distinct and never all-null, at most '
+            'one referred row per referring row); oracle = the description after the edits; non-trivial = script applies')
+def edited_after_load(ctx):
+    if ctx.shard == 0:
+        ctx.note('domain: an edit script that leaves a referred class with a null or duplicate key (e.g. unlinking the '
+                 'middle class of the chain shape) is skipped; delete is applied to rows that were unrelated first '
+                 '(delete of a linked instance belongs to C02)')
+    tmp = tempfile.mkdtemp(prefix='verif_c01_')
+    try:
+        memo = {}
+        for i, case in enumerate(history_cases(ctx.quick)):
+            if i % ctx.nshards != ctx.shard:
+                continue
+            if ctx.expired():
+                ctx.exhausted = False
+                break
+            shape, kt, scard, tcard, idv, pop, phr, name, ai, origin, route = case
+            bk = (shape, tuple(kt), scard, tcard, idv, pop, phr, name, ai)
+            if bk not in memo:
+                memo.clear()
+                desc0 = rel_desc(shape, kt, scard, tcard, idv, pop, phr)
+                memo[bk] = (desc0, H.script(desc0, name, ai) if H.in_domain(desc0) else None)
+            desc0, edits = memo[bk]
+            if edits is None:
+                continue
+            ctx.case(key=case, nontrivial=True)
+            for clause, observed, required in run_history_case(desc0, origin, edits, route, tmp):
+                ctx.check(False, clause=clause, input=dict(desc=desc0, origin=origin, edits=edits, route=route),
+                          observed=observed, required=required)
+        else:
+            ctx.exhausted = True
+    finally:
+        shutil.rmtree(tmp, ignore_errors=True)
+
+
 @item('identifier-R-digits', stands_in_for=['xtuml.load.ModelLoader.t_RELID'], shards=1,
       bound='names R1, R2D2, R0, R12_x as class, key, referential, index and attribute name; 2 routes')
 def identifier_r_digits(ctx):
@@ -689,7 +810,10 @@ PREFIX = {'identifier-R-digits': 'identifier-R-digits:', 'phrase-with-quote': 'p
 def replay(item_name, input):
     tmp = tempfile.mkdtemp(prefix='verif_c01_')
     try:
-        return [dict(clause=PREFIX.get(item_name, '') + c, observed=o, required=r)
-                for c, o, r in run_case(input['desc'], input['route'], tmp)]
+        if 'origin' in input:
+            res = run_history_case(input['desc'], input['origin'], input['edits'], input['route'], tmp)
+        else:
+            res = run_case(input['desc'], input['route'], tmp)
+        return [dict(clause=PREFIX.get(item_name, '') + c, observed=o, required=r) for c, o, r in res]
     finally:
         shutil.rmtree(tmp, ignore_errors=True)
